@@ -542,7 +542,7 @@ func (c *CEnv) field(e *CE) Value {
 		c.fail("no field %s in %s", e.Name, base.T)
 	case KPtr:
 		l := c.fieldLoc(base.Loc, e.Name)
-		if c.specMode {
+		if c.specMode && !c.heap().Spec {
 			c.fail("heap access in spec function")
 		}
 		return c.x.loadLoc(c.heap(), l)
@@ -625,7 +625,7 @@ func (c *CEnv) index(e *CE) Value {
 	idx := c.evalH(e.Args[1], &ixHint)
 	switch base.K {
 	case KSlice:
-		if c.specMode {
+		if c.specMode && !c.heap().Spec {
 			c.fail("heap access in spec function")
 		}
 		l := &Loc{Prefix: base.Loc.Prefix, Root: base.Loc.Root, Elems: appendTerm(base.Loc.Elems, c.x.ixAdd(base.Off, idx.X)), T: base.Loc.T}
@@ -915,6 +915,10 @@ func (c *CEnv) callExpr(e *CE, hint *Value) Value {
 			}
 			args = append(args, at)
 		}
+		// heap components the spec body reads are implicit arguments: the current (or old) heap
+		for _, hp := range c.x.vc.specHeap[sf.Name] {
+			args = append(args, c.x.comp(c.heap(), hp[0], hp[1]))
+		}
 		rt, _ := basicByName(sf.Ret)
 		return Value{K: KScalar, T: rt, X: App(quoteSym(name), m.specSort(sf.Ret), args...)}
 	}
@@ -939,10 +943,6 @@ func (c *CEnv) findSpec(name string) *SpecFn {
 	return nil
 }
 
-func (c *CEnv) methodCall(e *CE) Value {
-	c.fail("method call %s not supported in contracts yet", e)
-	return Value{}
-}
 
 // useSpec makes sure the definition of a spec function is part of the script.
 func (vc *VC) useSpec(c *CEnv, sf *SpecFn) {
@@ -952,12 +952,16 @@ func (vc *VC) useSpec(c *CEnv, sf *SpecFn) {
 	vc.specsUsed[sf.Name] = true
 	m := vc.mode
 	var ps []string
-	env := &CEnv{x: c.x, fr: c.fr, pkg: c.pkg, mode: m, vars: map[string]Value{}, specMode: true, st: c.st}
+	pkg := c.pkg
+	if sp := vc.uni.specPkg(sf); sp != nil {
+		pkg = sp
+	}
+	sheap := &State{H: map[string]*Term{}, Reach: TTrue, Spec: true}
+	env := &CEnv{x: c.x, fr: c.fr, pkg: pkg, mode: m, vars: map[string]Value{}, specMode: true, st: sheap}
 	for _, p := range sf.Params {
 		s := m.specSort(p.Type)
 		ps = append(ps, fmt.Sprintf("(%s %s)", quoteSym(p.Name), s))
-		t, _ := basicByName(p.Type)
-		env.vars[p.Name] = Value{K: KScalar, T: t, X: Sym(p.Name, s)}
+		env.vars[p.Name] = specParamValue(pkg, m, p, Sym(p.Name, s))
 	}
 	rs := m.specSort(sf.Ret)
 	if sf.Uninterp {
@@ -977,7 +981,22 @@ func (vc *VC) useSpec(c *CEnv, sf *SpecFn) {
 			hint = &Value{K: KScalar, T: t, X: m.lit(big.NewInt(0), it)}
 		}
 	}
+	vc.sideStack = append(vc.sideStack, nil)
 	body := env.evalH(sf.Body, hint)
+	// heap components read by the body become implicit parameters; a second evaluation lets
+	// recursive calls pass them along
+	if len(sheap.H) > 0 {
+		var hps [][2]string
+		for _, k := range sortedKeys(sheap.H) {
+			hps = append(hps, [2]string{k, sheap.H[k].S})
+		}
+		if vc.specHeap == nil {
+			vc.specHeap = map[string][][2]string{}
+		}
+		vc.specHeap[sf.Name] = hps
+		body = env.evalH(sf.Body, hint)
+	}
+	vc.sideStack = vc.sideStack[:len(vc.sideStack)-1] // typing facts about bound parameters are dropped
 	if body.X == nil || body.X.S != rs {
 		got := "?"
 		if body.X != nil {
@@ -989,6 +1008,10 @@ func (vc *VC) useSpec(c *CEnv, sf *SpecFn) {
 	for _, p := range sf.Params {
 		pnames = append(pnames, quoteSym(p.Name))
 		psorts = append(psorts, m.specSort(p.Type))
+	}
+	for _, hp := range vc.specHeap[sf.Name] {
+		pnames = append(pnames, quoteSym("hp."+hp[0]))
+		psorts = append(psorts, hp[1])
 	}
 	raw := specDefinition(quoteSym(sf.Name), pnames, psorts, rs, body.X)
 	// dependencies discovered during evaluation were appended after idx; move this definition after them
